@@ -30,6 +30,8 @@ SPEC = {
 }
 SPEC['explanation'] += ' T9.whole: every pass of the block loop of reverse_iter_lines looks at the whole buffer (new block + carry-over) before going on.'
 SPEC['decided'] += ['block loop examines the whole buffer']
+SPEC['explanation'] += ' T10.empty: without line breaks only a non-empty text is yielded. T7.defer: reverse_iter_lines emits lines only from a buffer established not to start at a line break. T9.decode: inside the block loop only complete lines are decoded. T9.sync: a descriptor-level size query is preceded by a flush.'
+SPEC['decided'] += ['empty text yields nothing', 'deferred emission guard', 'decode only complete lines', 'flush before fstat']
 MANIFEST = {
     'technique': 'regex-AST extraction of the line-ending alternation compared with a frozen boundary table; delegation and guard-shape checks',
     'text': ('Decides that the set of recognised line breaks is exactly right (the \\x2028 typo class of defect), that '
@@ -267,6 +269,52 @@ def run(ctx):
                     o.val is not None and T in txt(o.val)]
             if not used and bad_pass is None:
                 bad_pass = (p, joins[0])
+    # T9.sync: a size taken from the file descriptor (os.fstat / os.stat) does not see data still in the file object's write
+    # buffer; where the position / size of the user's file object is derived from it, a flush of that object precedes it on
+    # every path (otherwise reverse reading starts before the newest records while forward reading sees them)
+    n_stat = 0
+    jm = prog.module('jsonutils')
+    for fi in jm.all_funcs:
+        if not any(isinstance(x, ast.Call) and call_name(x) in ('os.fstat', 'os.stat') for x in ast.walk(fi.node)):
+            continue
+        ws, spaths = paths_of(prog, fi, recv=prog.cls('jsonutils.JSONLIterator') if fi.cls is not None else None)
+        for p in spaths:
+            calls = [o for o in p.ops if o.kind == 'call']
+            for o in calls:
+                if call_name(o.val) in ('os.fstat', 'os.stat'):
+                    n_stat += 1
+                    flushed = [c for c in calls if c.seq < o.seq and isinstance(c.val.func, ast.Attribute) and c.val.func.attr == 'flush']
+                    ctx.ob('T9.sync', fi.fq, 'a descriptor-level size query is preceded by a flush of the file object on every path',
+                           bool(flushed), loc=loc(fi, o.node), path=p.describe() if not flushed else None)
+    if n_stat == 0:
+        ctx.info('T9.sync: no descriptor-level size query in jsonutils (nothing to check)')
+    # T9.decode: a block boundary may fall inside a multi-byte character: inside the block loop only complete lines (pieces of
+    # the split buffer) are decoded, never the block just read or the buffer it was joined into
+    bad_dec = None
+    n_dec = 0
+    for p in rpaths:
+        marks = [o.seq for o in p.ops if o.kind == 'loop_iter'] + [10 ** 9]
+        loop_end = max([o.seq for o in p.ops if o.kind == 'loop_iter'] or [0])
+        for a, b in zip(marks, marks[1:]):
+            seg = [o for o in p.ops if a < o.seq < b]
+            rd = [o for o in seg if o.kind == 'call' and isinstance(o.val.func, ast.Attribute) and o.val.func.attr == 'read']
+            if not rd:
+                continue
+            tok = [nm for nm, info in wr.tokens.items() if info[0] == 'call' and len(info) > 2 and info[2] is rd[0]]
+            if not tok:
+                continue
+            # the pass ends at the next loop test: the last pass is followed by the code after the loop (whole file read)
+            nxt_test = min([o.seq for o in seg if o.kind == 'test' and o.seq > rd[0].seq and isinstance(o.node, ast.Compare) and
+                            any(o.node is x or o.node is getattr(x, 'test', None) for x in ast.walk(ril.node) if isinstance(x, ast.While))]
+                           or [b])
+            for o in seg:
+                if o.kind == 'call' and isinstance(o.val.func, ast.Attribute) and o.val.func.attr == 'decode' and rd[0].seq < o.seq < nxt_test:
+                    n_dec += 1
+                    if tok[0] in {x.id for x in ast.walk(o.val.func.value) if isinstance(x, ast.Name)} and bad_dec is None:
+                        bad_dec = (p, o)
+    ctx.ob('T9.decode', ril.fq, 'inside the block loop only complete lines are decoded (never the raw block / the joined buffer: a block '
+           'boundary may cut a multi-byte character)', bad_dec is None, loc=loc(ril, bad_dec[1].node) if bad_dec else ril.loc,
+           detail='%d decode calls inside passes' % n_dec, path=bad_dec[0].describe() if bad_dec else None, nontrivial=n_dec > 0)
     if n_pass == 0:
         ctx.unknown('T9.whole', ril.fq, 'no block read joined with a carried-over buffer found in the loop', ril.loc)
     else:
